@@ -494,6 +494,18 @@ func (t goTarget) outerDefs(v ssa.Value) []defSite {
 
 func (t goTarget) outerDefsD(v ssa.Value, depth int) []defSite {
 	v = stripConv(v)
+	// the started function's state handed over in a struct (go forwarder{d: d, id: id, ...}.run()): a field of the
+	// struct-typed receiver/parameter is what the composite literal at the start site stored into it
+	if prm, idx, ok := paramOfStructRead(v); ok && depth < 4 {
+		if arg := t.bind(prm); arg != ssa.Value(prm) {
+			if fv := literalFieldValue(arg, idx); fv != nil {
+				if t.parent != nil {
+					return t.parent.outerDefsD(fv, depth+1)
+				}
+				return defSites(fv, map[ssa.Value]bool{})
+			}
+		}
+	}
 	var bound ssa.Value
 	switch x := v.(type) {
 	case *ssa.UnOp:
@@ -674,4 +686,77 @@ func (d *driverModel) armsFlag(ins ssa.Instruction) bool {
 		}
 	}
 	return false
+}
+
+// paramOfStructRead: v reads field idx of a struct-typed parameter - directly, or through the local cell a value
+// receiver is spilled into.
+func paramOfStructRead(v ssa.Value) (*ssa.Parameter, int, bool) {
+	switch x := v.(type) {
+	case *ssa.Field:
+		if p, ok := stripConv(x.X).(*ssa.Parameter); ok {
+			return p, x.Field, true
+		}
+	case *ssa.UnOp:
+		if x.Op != token.MUL {
+			return nil, 0, false
+		}
+		fa, ok := x.X.(*ssa.FieldAddr)
+		if !ok {
+			return nil, 0, false
+		}
+		switch b := fa.X.(type) {
+		case *ssa.Alloc:
+			var prm *ssa.Parameter
+			n := 0
+			for _, ref := range *b.Referrers() {
+				if st, ok := ref.(*ssa.Store); ok && st.Addr == ssa.Value(b) {
+					n++
+					prm, _ = stripConv(st.Val).(*ssa.Parameter)
+				}
+			}
+			if n == 1 && prm != nil {
+				return prm, fa.Field, true
+			}
+		case *ssa.Parameter:
+			// pointer-typed parameter to a struct literal
+			return b, fa.Field, true
+		}
+	}
+	return nil, 0, false
+}
+
+// literalFieldValue: arg is a struct value (or its address) built by a composite literal in a local cell; the value
+// stored into its field idx.
+func literalFieldValue(arg ssa.Value, idx int) ssa.Value {
+	arg = stripConv(arg)
+	var cell *ssa.Alloc
+	switch x := arg.(type) {
+	case *ssa.UnOp:
+		if x.Op == token.MUL {
+			cell, _ = x.X.(*ssa.Alloc)
+		}
+	case *ssa.Alloc:
+		cell = x
+	}
+	if cell == nil {
+		return nil
+	}
+	var val ssa.Value
+	n := 0
+	for _, ref := range *cell.Referrers() {
+		fa, ok := ref.(*ssa.FieldAddr)
+		if !ok || fa.Field != idx {
+			continue
+		}
+		for _, r2 := range *fa.Referrers() {
+			if st, ok := r2.(*ssa.Store); ok && st.Addr == ssa.Value(fa) {
+				val = st.Val
+				n++
+			}
+		}
+	}
+	if n != 1 {
+		return nil
+	}
+	return val
 }
